@@ -1114,7 +1114,7 @@ Qed.
 
 Lemma decl_frame ws vf vf' lo : decl_ok ws vf -> inc (lo - 1) ws -> (forall id, lo <= id -> vf' id = vf id) ->
   decl_ok ws vf'.
-Proof.
+Proof. pose proof Hids as Hids_u. pose proof Hwidths as Hwidths_u. 
   intros [H1 H2] Hi Hfr. split; [assumption|]. intros d c Hd Hk.
   rewrite Hfr; [eapply H2; eassumption|]. pose proof (inc_lower _ _ _ Hi Hd). lia.
 Qed.
@@ -1167,7 +1167,7 @@ Fixpoint wr_post (gs : list gnet) (base : Z) (vf : wid -> Z) (bv : wid -> nat ->
 
 Lemma seg_post_frame g base vf vf' bv :
   (forall id, base <= id < base + gnet_size g -> vf' id = vf id) -> seg_post g base vf bv -> seg_post g base vf' bv.
-Proof.
+Proof. pose proof Hids as Hids_u. pose proof Hwidths as Hwidths_u. 
   destruct g; cbn [seg_post gnet_size]; auto. intros Hfr [H1 H2]. rewrite !Hfr by lia. auto.
 Qed.
 
@@ -1482,7 +1482,7 @@ Lemma wr_post_frame gs : forall base vf vf' bv, 0 <= 0 ->
 Proof.
   induction gs as [|g r IH]; intros base vf vf' bv _ Hfr H; [exact I|].
   cbn [wr_post] in *. destruct H as [H1 H2]. pose proof (gnet_size_nonneg g). split.
-  - apply (seg_post_frame g base vf); [|assumption]. intros id Hid. apply Hfr. lia.
+  - apply (seg_post_frame nl Hids Hwidths g base vf); [|assumption]. intros id Hid. apply Hfr. lia.
   - apply (IH _ vf); [lia| |assumption]. intros id Hid. apply Hfr. lia.
 Qed.
 
@@ -1528,7 +1528,7 @@ Proof.
   cbv zeta in C1, C2. fold vfC in C1, C2. rewrite bv_eq in C1. rewrite HrC in C1. fold (rdy_final nl) in C1.
   (* register and write-port groups *)
   assert (HdS' : decl_ok merge nl (snd (emit_gnets nl gsS baseS)) vfC).
-  { apply (decl_frame merge nl _ vfI vfC baseS); [assumption|apply emit_gnets_wires|].
+  { apply (decl_frame merge nl Hids Hw _ vfI vfC baseS); [assumption|apply emit_gnets_wires|].
     intros id Hid. apply C2; [unfold baseS in Hid; lia|].
     intros n k _ Hk. pose proof (bid_lt_T0 (ndest n) k Hk). unfold baseS in Hid. lia. }
   destruct (seq_list merge nl Hids Hw st (rdy_final nl) bvF (seq_nets nl) baseS vfC) as [S1 S2];
@@ -1573,3 +1573,163 @@ Proof.
 Qed.
 
 End FlatFinal.
+
+(* ------------------------------------------------------------------ next state *)
+
+Lemma emit_nets_comb nl g : forall base x, In x (fst (snd (emit nl g base))) -> is_comb (nop x) = true.
+Proof.
+  induction g as [w i|b|a IHa|a IHa b IHb|a IHa b IHb|a IHa b IHb|a IHa b IHb]; intros base x; cbn [emit];
+    try (unfold gate2; specialize (IHa (base + 1)); specialize (IHb (base + 1 + gsize a));
+         destruct (emit nl a (base + 1)) as [ia [na wa]]; destruct (emit nl b (base + 1 + gsize a)) as [ib [nb wb]];
+         cbn [fst snd] in *; intro H; apply in_app_or in H; destruct H as [H|H]; [eauto|];
+         apply in_app_or in H; destruct H as [H|[<-|[]]]; [eauto|reflexivity]).
+  - intros [].
+  - intros [].
+  - specialize (IHa (base + 1)). destruct (emit nl a (base + 1)) as [ia [na wa]]. cbn [fst snd] in *.
+    intro H. apply in_app_or in H. destruct H as [H|[<-|[]]]; [eauto|reflexivity].
+Qed.
+
+Lemma emit_bits_nets_comb nl d bits : forall j base x,
+  In x (fst (emit_bits nl d j bits base)) -> is_comb (nop x) = true.
+Proof.
+  induction bits as [|g r IH]; intros j base x; cbn [emit_bits]; [intros []|].
+  pose proof (emit_nets_comb nl g base) as Hg.
+  destruct (emit nl g base) as [id [ns ws]]. specialize (IH (S j) (base + gsize g)).
+  destruct (emit_bits nl d (S j) r (base + gsize g)) as [ns' ws']. cbn [fst snd] in *.
+  intro H. apply in_app_or in H. destruct H as [H|[<-|H]]; [eauto|reflexivity|eauto].
+Qed.
+
+Lemma comb_gnet_nets nl n base x : is_comb (nop n) = true ->
+  In x (fst (emit_gnet nl (synth_net nl n) base)) -> is_comb (nop x) = true.
+Proof.
+  intros Hc. unfold synth_net. destruct (nop n) eqn:E; try discriminate Hc; cbn [emit_gnet fst];
+    try (apply emit_bits_nets_comb).
+  intros [<-|[<-|H]]; try reflexivity. apply in_map_iff in H. destruct H as [i [<- _]]. reflexivity.
+Qed.
+
+Lemma comb_gnets_nets nl ns : forall base x, (forall n, In n ns -> is_comb (nop n) = true) ->
+  In x (fst (emit_gnets nl (map (synth_net nl) ns) base)) -> is_comb (nop x) = true.
+Proof.
+  induction ns as [|n r IH]; intros base x Hall; cbn [map emit_gnets]; [intros []|].
+  pose proof (comb_gnet_nets nl n base x (Hall n (or_introl eq_refl))) as Hn.
+  destruct (emit_gnet nl (synth_net nl n) base) as [ns1 ws1].
+  specialize (IH (base + gnet_size (synth_net nl n)) x (fun y Hy => Hall y (or_intror Hy))).
+  destruct (emit_gnets nl (map (synth_net nl) r) (base + gnet_size (synth_net nl n))) as [ns2 ws2].
+  cbn [fst] in *. intro H. apply in_app_or in H. destruct H; auto.
+Qed.
+
+Lemma regnext_skip nl' v ns : (forall n, In n ns -> is_comb (nop n) = true) ->
+  forall rg, fold_left (regnext_spec nl' v) ns rg = rg.
+Proof.
+  induction ns as [|n r IH]; intros H rg; cbn [fold_left]; [reflexivity|].
+  rewrite IH by (intros; apply H; right; assumption).
+  specialize (H n (or_introl eq_refl)). unfold regnext_spec. destruct (nop n); try discriminate H; reflexivity.
+Qed.
+
+Lemma write_skip v ns : (forall n, In n ns -> is_comb (nop n) = true) ->
+  forall ms, fold_left (write_spec v) ns ms = ms.
+Proof.
+  induction ns as [|n r IH]; intros H ms; cbn [fold_left]; [reflexivity|].
+  rewrite IH by (intros; apply H; right; assumption).
+  specialize (H n (or_introl eq_refl)). unfold write_spec. destruct (nop n); try discriminate H; reflexivity.
+Qed.
+
+Section FlatState.
+Variable merge : bool.
+Variable nl : netlist.
+Hypothesis Hids : inc 0 (wires nl).
+Hypothesis Hwidths : forallb (fun x => 0 <=? wwidth x) (wires nl) = true.
+
+Local Notation bid := (bid nl).
+Local Notation T0 := (T0 nl).
+Local Notation nl' := (flatten merge nl).
+Local Notation wnat := (wnat nl).
+
+Variable vf : wid -> Z.                 (* final valuation of the flattened block *)
+Variable bv : wid -> nat -> bool.       (* final gate-level valuation *)
+Variable rdy : list wid.
+Hypothesis HI : Inv nl rdy vf bv.
+
+Definition RR (rg : wid -> Z) (grg : wid -> nat -> bool) : Prop :=
+  forall r i, is_reg_w nl r = true -> (i < wnat r)%nat -> rg (bid r i) = b2z (grg r i).
+
+(* the 1-bit `r` nets of one register *)
+Lemma reg_bits w src n : forall s rg,
+  (forall i, (s <= i < s + n)%nat -> width_of nl' (bid w i) = 1 /\ vf (bid src i) = b2z (bv src i)) ->
+  let rg' := fold_left (regnext_spec nl' vf) (map (fun i => mkNet OpReg [bid src i] (bid w i)) (seq s n)) rg in
+  (forall i, (s <= i < s + n)%nat -> rg' (bid w i) = b2z (bv src i))
+  /\ (forall id, (forall i, (s <= i < s + n)%nat -> id <> bid w i) -> rg' id = rg id).
+Proof.
+  induction n as [|n IH]; intros s rg H; cbv zeta; cbn [seq map fold_left].
+  - split; [intros; lia|reflexivity].
+  - destruct (H s ltac:(lia)) as [W0 V0].
+    unfold regnext_spec at 2. cbn [nop nargs ndest arg nth]. rewrite W0, V0, b2z_mod2'.
+    set (rg1 := upd rg (bid w s) (b2z (bv src s))).
+    destruct (IH (S s) rg1) as [I1 I2]. { intros i Hi. apply H. lia. }
+    cbv zeta in I1, I2. split.
+    + intros i Hi. destruct (Nat.eq_dec i s) as [->|Hne].
+      * rewrite I2; [unfold rg1; apply upd_same|]. intros k Hk E. unfold Flatten.bid in E. lia.
+      * apply I1. lia.
+    + intros id Hid. rewrite I2 by (intros i Hi; apply Hid; lia).
+      unfold rg1. apply upd_other. apply Hid. lia.
+Qed.
+
+Lemma seq_regs : forall ns base rg grg,
+  (forall n, In n ns -> is_comb (nop n) = false /\ (forall a, In a (nargs n) -> In a rdy)
+                        /\ arity_ok (nop n) (length (nargs n)) = true /\ net_synth_ok nl n = true) ->
+  RR rg grg ->
+  RR (fold_left (regnext_spec nl' vf) (fst (emit_gnets nl (map (synth_net nl) ns) base)) rg)
+     (fold_left (gregnext nl bv) ns grg).
+Proof.
+  induction ns as [|n r IH]; intros base rg grg Hall HR; [exact HR|].
+  destruct (Hall n (or_introl eq_refl)) as (Hc & Hin & Har & Hso).
+  cbn [map]. rewrite (emit_gnets_cons nl). cbn [fst fold_left]. rewrite fold_left_app.
+  apply IH; [intros x Hx; apply Hall; right; assumption|].
+  unfold synth_net, gregnext. unfold net_synth_ok in Hso.
+  destruct (nop n) eqn:Eop; try discriminate Hc; cbn [emit_gnet fst].
+  - (* a register *)
+    cbn [arity_ok] in Har. apply Nat.eqb_eq in Har.
+    assert (Ha0 : In (arg n 0) (nargs n)) by (unfold arg; apply nth_In; lia).
+    assert (Hle : (wnat (ndest n) <= wnat (arg n 0))%nat) by (unfold Synth.wnat; lia).
+    destruct (reg_bits (ndest n) (arg n 0) (wnat (ndest n)) 0%nat rg) as [B1 B2].
+    { intros i Hi. destruct (bit_static merge nl Hids Hwidths (ndest n) i ltac:(lia)) as (_ & _ & _ & _ & Q1 & _).
+      split; [assumption|]. apply HI; [apply Hin; assumption|lia]. }
+    cbv zeta in B1, B2. intros r0 i Hr Hi.
+    destruct (r0 =? ndest n) eqn:E.
+    + assert (r0 = ndest n) by lia. subst r0. cbn [andb].
+      destruct (Nat.ltb_spec i (wnat (ndest n))); [|lia]. apply B1. lia.
+    + cbn [andb]. rewrite B2; [apply HR; assumption|].
+      intros k Hk. apply (bid_neq merge nl Hids Hwidths); [assumption|lia|lia].
+  - (* a memory write port: no register effect *)
+    cbn [fold_left]. unfold regnext_spec, cat_net. cbn [nop]. exact HR.
+Qed.
+
+Lemma seq_mems : forall ns base ms gms,
+  (forall n, In n ns -> is_comb (nop n) = false /\ (forall a, In a (nargs n) -> In a rdy)
+                        /\ arity_ok (nop n) (length (nargs n)) = true /\ net_synth_ok nl n = true) ->
+  wr_post (map (synth_net nl) ns) base vf bv ->
+  (forall m a, ms m a = gms m a) ->
+  forall m a, fold_left (write_spec vf) (fst (emit_gnets nl (map (synth_net nl) ns) base)) ms m a
+            = fold_left (gwrite nl bv) ns gms m a.
+Proof.
+  induction ns as [|n r IH]; intros base ms gms Hall Hpost H0; [exact H0|].
+  destruct (Hall n (or_introl eq_refl)) as (Hc & Hin & Har & Hso).
+  cbn [map] in *. rewrite (emit_gnets_cons nl). cbn [fst fold_left]. rewrite fold_left_app.
+  cbn [wr_post] in Hpost. destruct Hpost as [P1 P2].
+  apply (IH (base + gnet_size (synth_net nl n))); [intros x Hx; apply Hall; right; assumption|assumption|].
+  unfold synth_net, gwrite in *. unfold net_synth_ok in Hso.
+  destruct (nop n) eqn:Eop; try discriminate Hc; cbn [emit_gnet fst seg_post] in *.
+  - (* registers: no memory effect *)
+    rewrite write_skip_reg. exact H0.
+  - (* the write port *)
+    cbn [fold_left]. unfold write_spec at 1 2 3. unfold cat_net. cbn [nop nargs arg nth].
+    cbn [arity_ok] in Har. apply Nat.eqb_eq in Har.
+    assert (Ha2 : In (arg n 2) (nargs n)) by (unfold arg; apply nth_In; lia).
+    assert (Hen : vf (bid (arg n 2) 0) = b2z (bv (arg n 2) 0%nat)).
+    { apply HI; [apply Hin; assumption|]. unfold Synth.wnat. lia. }
+    destruct P1 as [PA PD]. rewrite Hen, PA, PD.
+    destruct (bv (arg n 2) 0%nat); cbn [b2z Z.eqb]; [|exact H0].
+    intros m' a'. unfold upd. destruct (m' =? m); [|apply H0]. destruct (a' =? _); [reflexivity|apply H0].
+Qed.
+
+End FlatState.
